@@ -6,7 +6,7 @@
     [iso g h] = some map injective on the nodes of g relabels g into h up to [geq]. *)
 From Coq Require Import List NArith ZArith Bool Arith Permutation.
 From SK Require Import lib.IRSortKeys lib.IRCore lib.IRSearch model.C18_Model proof.C18_Order proof.C18_Spec
-  proof.C18_Graph proof.C18_Canon proof.C18_Equiv proof.C18_Label proof.C18_Aut proof.C18_Invariant proof.C18_Wf proof.C18_Count proof.C18_View proof.C18_Vf2 proof.C18_Vf2Count proof.C18_Refine proof.C18_Examples.
+  proof.C18_Graph proof.C18_Canon proof.C18_Equiv proof.C18_Label proof.C18_Aut proof.C18_Invariant proof.C18_Wf proof.C18_Count proof.C18_View proof.C18_Vf2 proof.C18_Vf2Count proof.C18_Refine proof.C18_NetBip proof.C18_Net proof.C18_NetSp proof.C18_Orbits proof.C18_Examples.
 From SK Require Import lib.C18_IRValid.
 From SK Require lib.IRInst.
 Import ListNotations.
@@ -162,3 +162,50 @@ Theorem C18_refine_stable : forall (g : vgraph) (P : partition),
   = refine IRInst.lexleb (sig g) (S (length (vnodes g))) P.
 Proof. exact model_refine_stable. Qed.
 Print Assumptions C18_refine_stable.
+
+(** Clauses 2 and 3 together: the canonical graph is a complete invariant of the view up to isomorphism. *)
+Theorem C18_canon_complete_invariant : forall (g1 g2 : vgraph) (l1 p1 l2 p2 : list N),
+  wf g1 -> kinds_ok g1 -> arcs_ok g1 -> wf g2 ->
+  fst (canon_search g1) = Some (l1, p1) -> fst (canon_search g2) = Some (l2, p2) ->
+  (iso g1 g2 <-> geq (canon_graph g1 p1) (canon_graph g2 p2)).
+Proof. exact canon_complete_invariant. Qed.
+Print Assumptions C18_canon_complete_invariant.
+
+(** Clause 2 stated on NETWORKS, bipartite view (with / without stoichiometry).  [net_ok st n]: species labels and reaction
+    ids are pairwise distinct (no view-id collision), reactions mention listed species only, no ordered (species, reaction)
+    incidence occurs twice.  [net_variant f n n']: the species list of n' is a permutation of the renamed species list of n
+    and the reaction list of n' is a permutation of the reactions of n with id f(id), sides renamed by f and listed in any
+    order -- i.e. species renamed, reactions re-ordered, reaction ids regenerated.  Under these premises the bipartite
+    view has a closed form (view_bip_closed) and n' receives the same minimal label and the identical canonical graph. *)
+Theorem C18_net_canon_invariant_bip : forall (st : bool) (f : N -> N) (n n' : net) (lab p lab' p' : list N),
+  net_ok st n -> net_ok st n' ->
+  (forall r, In r (nrxns n) -> forall sc, In sc (lhs r ++ rhs r) -> (0 < snd sc)%Z) ->
+  net_variant f n n' ->
+  inj_on f (nspecies n ++ map rid (nrxns n)) ->
+  fst (canon_search (view true st n)) = Some (lab, p) -> fst (canon_search (view true st n')) = Some (lab', p') ->
+  lab' = lab /\ geq (canon_graph (view true st n') p') (canon_graph (view true st n) p).
+Proof. exact net_canon_invariant_bip. Qed.
+Print Assumptions C18_net_canon_invariant_bip.
+
+(** Clause 2 stated on NETWORKS, species view: for a network with distinct species labels whose reactions mention listed
+    species only, a variant (species renamed injectively, reactions re-ordered, ids regenerated) receives the same minimal
+    label and the identical canonical graph. *)
+Theorem C18_net_canon_invariant_sp : forall (f : N -> N) (n n' : net) (lab p lab' p' : list N),
+  NoDup (nspecies n) -> NoDup (nspecies n') ->
+  (forall r, In r (nrxns n) -> forall sc, In sc (lhs r ++ rhs r) -> In (fst sc) (nspecies n)) ->
+  net_variant f n n' -> inj_on f (nspecies n) ->
+  fst (canon_search (view false true n)) = Some (lab, p) -> fst (canon_search (view false true n')) = Some (lab', p') ->
+  lab' = lab /\ geq (canon_graph (view false true n') p') (canon_graph (view false true n) p).
+Proof. exact net_canon_invariant_sp. Qed.
+Print Assumptions C18_net_canon_invariant_sp.
+
+(** Clause 4, orbits, for CRNAutomorphism (VF2 as premise, see C18_vf2_count): the model of its orbit computation
+    (union-find over every (node, image) pair of every enumerated self-map) returns a partition of the nodes
+    ([part]: the classes are pairwise disjoint and cover the nodes) in which two nodes share a class ([conn]) exactly when
+    some structure-preserving self-map sends one to the other. *)
+Theorem C18_vf2_orbits : forall g : vgraph, wf g ->
+  part (node_ids g) (uf_orbits (node_ids g) (auts g)) /\
+  (forall u v, In u (node_ids g) ->
+     (conn (uf_orbits (node_ids g) (auts g)) u v <-> exists s, is_aut g s /\ s u = v)).
+Proof. exact vf2_orbits. Qed.
+Print Assumptions C18_vf2_orbits.
